@@ -18,16 +18,28 @@ package workflow
 //
 //@ func buildOneOfExpressions
 //@   requires wfnode(data)
+//@   ensures [oneof-has-a-discriminator-and-its-options] result1 == nil ==> typeis(result, *infer.OneOfExpression) && result.(*infer.OneOfExpression) != nil && \
+//@        result.(*infer.OneOfExpression).Discriminator != "" && result.(*infer.OneOfExpression).Options != nil && result.(*infer.OneOfExpression).NodePath == ""
 //@   decreases data.(*yaml.node), 0
 //@   opt recgroup yamlbuild
 //@   modifies slice path
 //
 //@ func buildExpression
 //@   requires wfnode(data)
+//@   ensures [expression-or-error] (result1 == nil) != (result == nil)
 //@ func buildResultOrDisabledExpression
 //@   requires wfnode(data)
+//@   ensures [or-disabled-is-a-oneof-of-the-result-and-the-disabled-output] result1 == nil ==> result != nil && result.Discriminator == "result" && \
+//@        result.Options != nil && indom(result.Options, "enabled") && indom(result.Options, "disabled") && \
+//@        result.Options["enabled"] != nil && result.Options["disabled"] != nil && \
+//@        result.Options["enabled"] == any(callres(buildExpression, 1, 0)) && \
+//@        (forall k string :: indom(result.Options, k) ==> k == "enabled" || k == "disabled")
 //@ func buildOptionalExpression
 //@   requires wfnode(data)
+//@   ensures [wait-optional-waits-soft-optional-does-not] result1 == nil ==> result != nil && result.Expr != nil && \
+//@        (result.WaitForCompletion <==> callres(Tag, 1, 0) == WaitOptionalTag) && \
+//@        (callres(Tag, 1, 0) == WaitOptionalTag || callres(Tag, 1, 0) == SoftOptionalTag) && \
+//@        result.Expr == callres(buildExpression, 1, 0) && result.GroupNodePath == "" && result.ParentNodePath == ""
 //
 // ---- interfaces of package workflow (contracts of their methods) ----
 //
@@ -164,7 +176,9 @@ package workflow
 //@ pure outputSchemaMap(e *executableWorkflow) map[string]*schema.StepOutputSchema = e.outputSchema
 //@ pred wfitem(it *DAGItem) = it != nil && \
 //@     (it.Data != nil ==> it.Kind == DAGItemKindStepStage || it.Kind == DAGItemKindOutput) && \
-//@     (it.Kind == DAGItemKindStepStage ==> it.StepID != "" && it.StageID != "")
+//@     (it.Kind == DAGItemKindStepStage ==> it.StepID != "" && it.StageID != "") && \
+//@     (it.Kind == DAGItemKindStepStage && it.Data != nil ==> typeis(it.Data, map[any]any) && \
+//@         (forall k any :: indom(it.Data.(map[any]any), k) ==> typeis(k, string)))
 // every stage node belongs to a step of the workflow
 //@ pred stepsKnown(l *loopState) = forall id string :: indag(l.dag, id) && nodeitem(dagnode(l.dag, id)).(*DAGItem).Kind == DAGItemKindStepStage ==> \
 //@     indom(l.lifecycles, nodeitem(dagnode(l.dag, id)).(*DAGItem).StepID)
@@ -236,6 +250,12 @@ package workflow
 //@   site call ProvideStageInput#1 assert [input-is-the-node-data-evaluated-over-the-data-model] callarg(resolveExpressions, 1, 1) == nodeItem.Data && callarg(resolveExpressions, 1, 2) == any(l.data) && \
 //@        callres(resolveExpressions, 1, 0) == any(stageInputData) && callres(resolveExpressions, 1, 1) == nil
 //@   site call ProvideStageInput#1 assert [input-validated-against-the-stage-schema] callrecv(Unserialize, 1) == nodeItem.DataSchema && callarg(Unserialize, 1, 0) == any(stageInputData) && callres(Unserialize, 1, 1) == nil
+//@   site call ProvideStageInput#1 assert [the-step-gets-exactly-the-evaluated-fields] callarg(ProvideStageInput, 1, 1) == typedInputData && \
+//@        (forall k string :: indom(typedInputData, k) <==> indom(stageInputData, any(k))) && \
+//@        (forall k string :: indom(typedInputData, k) ==> typedInputData[k] == stageInputData[any(k)])
+//@   loop 2 invariant forall kk any :: visited(kk) ==> typeis(kk, string) && indom(typedInputData, kk.(string)) && typedInputData[kk.(string)] == stageInputData[kk]
+//@   loop 2 invariant forall s string :: indom(typedInputData, s) ==> visited(any(s)) && indom(stageInputData, any(s)) && typedInputData[s] == stageInputData[any(s)]
+//@   loop 2 invariant typedInputData != nil && lockinv(l) && held(l.lock)
 //@   site call close#1 assert [output-only-from-a-ready-output-node] readyNodes[nodeID] != "unresolvable" && nodeItem.Kind == DAGItemKindOutput
 //@   site call close#1 assert [workflow-output-is-the-output-node-data-evaluated-over-the-data-model] callarg(resolveExpressions, 1, 1) == nodeItem.Data && callarg(resolveExpressions, 1, 2) == any(l.data) && \
 //@        callres(resolveExpressions, 1, 1) == nil && lastsent(l.outputDataChannel).outputData == callres(resolveExpressions, 1, 0) && lastsent(l.outputDataChannel).outputID == nodeItem.OutputID
@@ -243,12 +263,32 @@ package workflow
 //@ func (*loopState).resolveExpressions
 //@   requires wfloop(l)
 //@   modifies nothing
+//@   ensures [a-map-of-fields-resolves-to-a-map-of-those-fields] typeis(inputData, map[any]any) && result1 == nil ==> \
+//@        typeis(result, map[any]any) && result.(map[any]any) != nil && (forall k any :: indom(result.(map[any]any), k) ==> indom(inputData.(map[any]any), k))
+//@   loop 2 invariant typeis(inputData, map[any]any) ==> (forall k any :: indom(result, k) ==> indom(inputData.(map[any]any), k))
+//@   loop 2 invariant result != nil && reflectOf(v) == inputData
+// ---- run-time meaning of the tagged expressions (C15) ----
 //@ func (*loopState).resolveOneOfExpression
 //@   requires wfloop(l) && expr != nil
 //@   modifies nothing
+//@   site lookup#1 assert [alternatives-are-read-from-the-oneof-node] callarg(GetNodeByID, 1, 0) == expr.NodePath && callrecv(ResolvedDependencies, 1) == callres(GetNodeByID, 1, 0)
+//@   site lookup#1 assert [the-alternative-is-a-resolved-or-dependency] indom(dependencies, firstResolvedDependency) && dependencies[firstResolvedDependency] == dgraph.OrDependency
+//@   site lookup#1 assert [the-option-id-is-the-dependency-below-the-oneof-node] strprefix(firstResolvedDependency, expr.NodePath + ".") ==> firstResolvedDependency == expr.NodePath + "." + optionID
+//@   site call resolveExpressions#1 assert [the-data-is-that-of-the-chosen-option] callarg(resolveExpressions, 1, 1) == expr.Options[optionID] && callarg(resolveExpressions, 1, 2) == dataModel
+//@   ensures [carries-the-discriminator-of-the-chosen-option] result1 == nil ==> typeis(result, map[any]any) && result.(map[any]any) != nil && \
+//@        result.(map[any]any)[any(expr.Discriminator)] == any(callres(strings.Replace, 1, 0))
+//@   ensures [carries-the-fields-of-the-chosen-option] result1 == nil && typeis(callres(resolveExpressions, 1, 0), map[any]any) ==> \
+//@        (forall k any :: indom(callres(resolveExpressions, 1, 0).(map[any]any), k) && k != any(expr.Discriminator) ==> \
+//@            indom(result.(map[any]any), k) && result.(map[any]any)[k] == callres(resolveExpressions, 1, 0).(map[any]any)[k])
+//@   loop 2 invariant outputData != nil && fresh(outputData)
+//@   loop 3 invariant outputData != nil && fresh(outputData) && (forall k any :: visited(k) ==> indom(outputData, k) && outputData[k] == subTypeObjectMap[k])
 //@ func (*loopState).resolveOptionalExpression
-//@   requires wfloop(l) && expr != nil
+//@   requires wfloop(l) && expr != nil && expr.Expr != nil
 //@   modifies nothing
+//@   ensures [the-group-is-looked-up-in-the-parent-node] result1 == nil ==> callarg(GetNodeByID, 1, 0) == expr.ParentNodePath && callrecv(ResolvedDependencies, 1) == callres(GetNodeByID, 1, 0)
+//@   ensures [absent-exactly-when-its-group-did-not-resolve] called(ResolvedDependencies, 1) && !indom(callres(ResolvedDependencies, 1, 0), expr.GroupNodePath) ==> result == nil && !called(Evaluate, 1)
+//@   ensures [present-value-is-the-evaluated-source] called(ResolvedDependencies, 1) && indom(callres(ResolvedDependencies, 1, 0), expr.GroupNodePath) ==> called(Evaluate, 1) && result == callres(Evaluate, 1, 0) && \
+//@        callrecv(Evaluate, 1) == any(expr.Expr) && callarg(Evaluate, 1, 0) == dataModel
 //
 // ---- Execute: one run of a prepared workflow ----
 //@ pred stepMapsOK(l *loopState) = typeis(l.data["steps"], map[string]any) && stepsOf(l) != nil && stepsOf(l) != l.data && allocated(stepsOf(l)) && \
@@ -266,12 +306,19 @@ package workflow
 //@   site mapwrite#5 set known(l, stepID)
 //@   site call Start#1 assert [steps-see-the-normalised-input] l.data["input"] == callres(Serialize, 1, 0) && callrecv(Serialize, 1) == any(e.input) && \
 //@        callarg(Serialize, 1, 0) == callres(Unserialize, 1, 0) && callres(Serialize, 1, 1) == nil && callres(Unserialize, 1, 1) == nil
+//@   site call Unlock#2 assert [a-run-builds-its-own-state] fresh(l) && fresh(l.lock) && fresh(l.data) && fresh(stepsOf(l)) && fresh(l.runningSteps) && \
+//@        fresh(l.waitingOutputs) && fresh(l.outputDataChannel) && fresh(l.recentErrors) && l.dag != e.dag && \
+//@        (forall k string :: indom(stepsOf(l), k) ==> fresh(stepsOf(l)[k].(map[string]any)))
+//@   site call Unlock#2 assert [a-run-starts-with-nothing-produced] !l.outputDone && (forall k string :: indom(stepsOf(l), k) ==> \
+//@        (forall g string :: !indom(stepsOf(l)[k].(map[string]any), g)))
 //@   site return#* assert [every-launched-step-is-force-closed] forall k string :: indom(l.runningSteps, k) ==> forceclosed(l.runningSteps[k])
 //@   loop 2 invariant held(l.lock) && wfloop(l)
 //@   loop 2 invariant fresh(l)
 //@   loop 2 invariant !l.outputDone
 //@   loop 2 invariant l.lifecycles == e.lifecycles
 //@   loop 2 invariant stepMapsOK(l)
+//@   loop 2 invariant forall k string :: indom(stepsOf(l), k) ==> visited(k)
+//@   loop 2 invariant fresh(l.data) && fresh(stepsOf(l)) && (forall k string :: indom(stepsOf(l), k) ==> fresh(stepsOf(l)[k].(map[string]any)) && (forall g string :: !indom(stepsOf(l)[k].(map[string]any), g)))
 //@   loop 2 invariant l.data["input"] == reSerializedInput
 //@   loop 2 invariant chlen(l.outputDataChannel) == 0 && !closed(l.outputDataChannel)
 //@   loop 2 invariant wfitems(l.dag) && stepsKnown(l)
@@ -279,6 +326,10 @@ package workflow
 //@   loop 2 invariant forall k string :: known(l, k) ==> indom(stepsOf(l), k)
 //@   loop 3 invariant held(l.lock) && wfloop(l) && stepMapsOK(l) && l.data["input"] == reSerializedInput
 //@   loop 3 invariant stepsOf(l) != stepDataModel
+//@   loop 3 invariant forall k string :: indom(stepsOf(l), k) ==> visited(k)
+//@   loop 3 invariant forall k string :: indom(stepsOf(l), k) ==> stepsOf(l)[k].(map[string]any) != stepDataModel
+//@   loop 3 invariant indom(stepsOf(l), stepID) ==> (forall k string :: indom(stepsOf(l), k) && k != stepID ==> stepsOf(l)[k].(map[string]any) != stepsOf(l)[stepID].(map[string]any))
+//@   loop 3 invariant fresh(l.data) && fresh(stepsOf(l)) && fresh(stepDataModel) && (forall g string :: !indom(stepDataModel, g)) && (forall k string :: indom(stepsOf(l), k) && k != stepID ==> fresh(stepsOf(l)[k].(map[string]any)) && (forall g string :: !indom(stepsOf(l)[k].(map[string]any), g)))
 //@   loop 3 invariant forall k string :: known(l, k) ==> indom(stepsOf(l), k)
 //
 // The callbacks given to a step (closures of Execute). What they capture is fixed when they are
